@@ -82,6 +82,10 @@ fn main() {
                 };
                 format!("str={} apps={}", ops_str(&s), a)
             }
+            "B" => {
+                let n: u64 = t[1].parse().unwrap();
+                format!("bsz={}", sy::delta::calculate_block_size(n))
+            }
             "R" => {
                 let bs: usize = t[1].parse().unwrap();
                 let data = unhex(t[2]);
